@@ -346,8 +346,16 @@ class MRGPath:
     def assumed_empty(self, term) -> bool:
         """the path assumes that `term` (a list) is empty"""
         ln = ('call', ('name', 'len'), (term,), ())
+
+        def same_emptiness(t):
+            # the mirrored list of `term` holds two rows per row of `term`: it is empty exactly when `term` is
+            if isinstance(t, tuple) and t and self.model.mirrored(t) == term:
+                return term
+            if isinstance(t, tuple):
+                return tuple(same_emptiness(x) for x in t)
+            return t
         for test, truth in self.res.assumed:
-            t = term_of(self.model.fn, test, inline=False)
+            t = same_emptiness(term_of(self.model.fn, test, inline=False))
             empty_if_true = [('cmp', '==', ('num', 0), ln), ('cmp', '==', ln, ('num', 0)), ('cmp', '<', ln, ('num', 1)), ('cmp', '<=', ln, ('num', 0)), ('not', term)]
             empty_if_false = [('cmp', '!=', ('num', 0), ln), ('cmp', '!=', ln, ('num', 0)), ('cmp', '<', ('num', 0), ln), ('cmp', '<=', ('num', 1), ln), term, ln]
             if (truth and t in empty_if_true) or (not truth and t in empty_if_false):
@@ -388,7 +396,8 @@ class MRGModel:
         for src in ('[x for t in R for x in ((t[1], t[0], t[2]), t)]', '[x for t in R for x in (t, (t[1], t[0], t[2]))]'):
             b = unify(self.pat(src, ['R']), rows)
             if b is not None:
-                return b['R']
+                from ..terms import alpha_norm
+                return alpha_norm(b['R'])      # the iterable of the outermost generator is closed: renumber its own comprehension variables
         return None
 
     def pool_results(self, term):
@@ -405,7 +414,8 @@ class MRGModel:
         """C when rows is [(c[0], c[1], 0.0) for c in C]"""
         from ..terms import unify
         b = unify(self.pat('[(c[0], c[1], 0.0) for c in C]', ['C']), rows)
-        return b['C'] if b is not None else None
+        from ..terms import alpha_norm
+        return alpha_norm(b['C']) if b is not None else None
 
     def sampled(self, comb_term):
         """candidate term when comb_term is prior_combinations_sample(<candidates>, args) (default counter), else None"""
